@@ -80,6 +80,16 @@ impl TcpStream {
                     local_addr.set_ip(dst.ip());
                 }
 
+                // The port just handed out was free, so nothing listens on it:
+                // connecting to it on this very host is refused (and must not
+                // trip the `local != remote` assertion of `SocketPair::new`).
+                if local_addr == dst {
+                    return Err(io::Error::new(
+                        io::ErrorKind::ConnectionRefused,
+                        dst.to_string(),
+                    ));
+                }
+
                 let pair = SocketPair::new(local_addr, dst);
                 let (rx, bidi) = host.tcp.new_stream(pair);
                 (pair, rx, bidi)
